@@ -8,10 +8,15 @@ import (
 	"github.com/polynetwork/poly/common"
 )
 
-func ownerN(i int) func(g *Gen) *Actor { return func(g *Gen) *Actor { return g.W.Owners[i%len(g.W.Owners)] } }
+func ownerN(i int) func(g *Gen) *Actor {
+	return func(g *Gen) *Actor { return g.W.Owners[i%len(g.W.Owners)] }
+}
 
 func regChain(id uint64, owner func(g *Gen) *Actor) Step {
-	return OpStep(func(g *Gen) *Op { a := owner(g); return &Op{Kind: KRegisterSideChain, Actor: a, Chain: g.chainContent(id, a)} })
+	return OpStep(func(g *Gen) *Op {
+		a := owner(g)
+		return &Op{Kind: KRegisterSideChain, Actor: a, Chain: g.chainContent(id, a)}
+	})
 }
 func updChain(id uint64, owner func(g *Gen) *Actor) Step {
 	return OpStep(func(g *Gen) *Op {
@@ -100,7 +105,9 @@ func SecondRoundScripts() []Script {
 	{
 		var reg, rem capture
 		out = append(out, Script{Name: "neo3-register-second-round", Steps: []Step{
-			OpStep(func(g *Gen) *Op { return &Op{Kind: KRegisterSV, Actor: g.W.Owners[0], List: []string{g.W.SVU[0], g.W.SVU[1]}} }),
+			OpStep(func(g *Gen) *Op {
+				return &Op{Kind: KRegisterSV, Actor: g.W.Owners[0], List: []string{g.W.SVU[0], g.W.SVU[1]}}
+			}),
 			reg.grab(KApproveRegSV),
 			RoundStep(KApproveRegSV, reg.get(), "first-round"),
 			OpStep(func(g *Gen) *Op { return &Op{Kind: KRemoveSV, Actor: g.W.Owners[0], List: []string{g.W.SVU[0]}} }),
@@ -120,7 +127,9 @@ func SecondRoundScripts() []Script {
 	}
 	// validator candidacy
 	out = append(out, Script{Name: "candidate-second-round", Steps: []Step{
-		OpStep(func(g *Gen) *Op { return &Op{Kind: KRegisterCandidate, Actor: g.W.Owners[0], Node: candKey(g).Key.PubHex()} }),
+		OpStep(func(g *Gen) *Op {
+			return &Op{Kind: KRegisterCandidate, Actor: g.W.Owners[0], Node: candKey(g).Key.PubHex()}
+		}),
 		RoundStep(KApproveCandidate, func(g *Gen) string { return candKey(g).Key.PubHex() }, "first-round"),
 		EpochStep(),
 		OpStep(func(g *Gen) *Op { return &Op{Kind: KQuitNode, Actor: g.W.Owners[0], Node: candKey(g).Key.PubHex()} }),
@@ -137,7 +146,9 @@ func ReturningScripts() []Script {
 	var out []Script
 	key := func(g *Gen) string { return candKey(g).Key.PubHex() }
 	regCand := func(k func(g *Gen) string, owner func(g *Gen) *Actor) Step {
-		return OpStep(func(g *Gen) *Op { return &Op{Kind: KRegisterCandidate, Actor: owner(g), Node: k(g), Tag: "returning-key"} })
+		return OpStep(func(g *Gen) *Op {
+			return &Op{Kind: KRegisterCandidate, Actor: owner(g), Node: k(g), Tag: "returning-key"}
+		})
 	}
 	quit := func(k func(g *Gen) string, owner func(g *Gen) *Actor) Step {
 		return OpStep(func(g *Gen) *Op { return &Op{Kind: KQuitNode, Actor: owner(g), Node: k(g)} })
@@ -215,6 +226,56 @@ func ReturningScripts() []Script {
 			RoundStep(KApproveRegSV, LastID(KApproveRegSV), "third-incarnation"),
 			RoundStep(KApproveRemSV, rem2.get(), "returning/applied-earlier"),
 		}, Tail: 10})
+	}
+	return out
+}
+
+// OverlappingScripts: two pending requests name the same relayer / state validator. Both are approved (the
+// second one changes nothing visible when it is applied), the subject is then removed / re-admitted by a regular
+// request, and a later approval round of the SECOND request (no fresh one) must change nothing.
+func OverlappingScripts() []Script {
+	var out []Script
+	type fam struct {
+		name                   string
+		reg, rem, apReg, apRem string
+		mk                     func(g *Gen, kind string, who int) *Op
+	}
+	fams := []fam{
+		{"relayer", KRegisterRelayer, KRemoveRelayer, KApproveRegRelayer, KApproveRemRelayer,
+			func(g *Gen, kind string, who int) *Op {
+				return &Op{Kind: kind, Actor: g.W.Owners[who], Addrs: relayers(g, 5), Tag: "overlapping-request"}
+			}},
+		{"neo3", KRegisterSV, KRemoveSV, KApproveRegSV, KApproveRemSV,
+			func(g *Gen, kind string, who int) *Op {
+				return &Op{Kind: kind, Actor: g.W.Owners[who], List: []string{g.W.SVU[4]}, Tag: "overlapping-request"}
+			}},
+	}
+	for _, f := range fams {
+		f := f
+		req := func(kind string, who int) Step { return OpStep(func(g *Gen) *Op { return f.mk(g, kind, who) }) }
+		{
+			var a, b capture
+			out = append(out, Script{Name: f.name + "-overlapping-register-requests", Steps: []Step{
+				req(f.reg, 0), a.grab(f.apReg), req(f.reg, 1), b.grab(f.apReg),
+				RoundStep(f.apReg, a.get(), "overlap/first-request"),
+				RoundStep(f.apReg, b.get(), "overlap/second-request-adds-nothing"),
+				req(f.rem, 0), RoundStep(f.apRem, LastID(f.apRem), "overlap/regular-removal"),
+				RoundStep(f.apReg, b.get(), "overlap/applied-earlier"),
+				RoundStep(f.apReg, a.get(), "overlap/applied-earlier"),
+			}, Tail: 8})
+		}
+		{
+			var a, b capture
+			out = append(out, Script{Name: f.name + "-overlapping-remove-requests", Steps: []Step{
+				req(f.reg, 0), RoundStep(f.apReg, LastID(f.apReg), "overlap/admit"),
+				req(f.rem, 0), a.grab(f.apRem), req(f.rem, 1), b.grab(f.apRem),
+				RoundStep(f.apRem, a.get(), "overlap/first-request"),
+				RoundStep(f.apRem, b.get(), "overlap/second-request-removes-nothing"),
+				req(f.reg, 2), RoundStep(f.apReg, LastID(f.apReg), "overlap/regular-re-admission"),
+				RoundStep(f.apRem, b.get(), "overlap/applied-earlier"),
+				RoundStep(f.apRem, a.get(), "overlap/applied-earlier"),
+			}, Tail: 8})
+		}
 	}
 	return out
 }
@@ -305,19 +366,31 @@ func ThresholdScripts() []Script {
 		walk(KApproveRemSV, Const("0"), nil),
 	}, Tail: 15})
 	out = append(out, Script{Name: "candidate-second-applicant-while-partially-approved", Steps: []Step{
-		OpStep(func(g *Gen) *Op { return &Op{Kind: KRegisterCandidate, Actor: g.W.Owners[0], Node: candKey(g).Key.PubHex()} }),
+		OpStep(func(g *Gen) *Op {
+			return &Op{Kind: KRegisterCandidate, Actor: g.W.Owners[0], Node: candKey(g).Key.PubHex()}
+		}),
 		func(g *Gen) []*Op {
 			ops := g.Round(KApproveCandidate, candKey(g).Key.PubHex(), "partial-round", false)
 			return ops[:Threshold(len(ops))-1]
 		},
-		OpStep(func(g *Gen) *Op { return &Op{Kind: KRegisterCandidate, Actor: g.W.Owners[1], Node: candKey(g).Key.PubHex(), Tag: "second-applicant"} }),
-		OpStep(func(g *Gen) *Op { return &Op{Kind: KUnRegisterCandidate, Actor: g.W.Owners[1], Node: candKey(g).Key.PubHex(), Tag: "by-other"} }),
-		OpStep(func(g *Gen) *Op { return &Op{Kind: KRegisterCandidate, Actor: candKey(g), Node: candKey(g).Key.PubHex(), Tag: "second-applicant"} }),
+		OpStep(func(g *Gen) *Op {
+			return &Op{Kind: KRegisterCandidate, Actor: g.W.Owners[1], Node: candKey(g).Key.PubHex(), Tag: "second-applicant"}
+		}),
+		OpStep(func(g *Gen) *Op {
+			return &Op{Kind: KUnRegisterCandidate, Actor: g.W.Owners[1], Node: candKey(g).Key.PubHex(), Tag: "by-other"}
+		}),
+		OpStep(func(g *Gen) *Op {
+			return &Op{Kind: KRegisterCandidate, Actor: candKey(g), Node: candKey(g).Key.PubHex(), Tag: "second-applicant"}
+		}),
 		RoundStep(KApproveCandidate, func(g *Gen) string { return candKey(g).Key.PubHex() }, "rest-of-round"),
 	}, Tail: 10})
 	out = append(out, Script{Name: "threshold-node", Extra: 1, Steps: []Step{
-		OpStep(func(g *Gen) *Op { return &Op{Kind: KRegisterCandidate, Actor: g.W.Owners[0], Node: g.W.Nodes[g.W.N0].Key.PubHex()} }),
-		OpStep(func(g *Gen) *Op { return &Op{Kind: KRegisterCandidate, Actor: g.W.Owners[1], Node: g.W.Nodes[g.W.N0+1].Key.PubHex()} }),
+		OpStep(func(g *Gen) *Op {
+			return &Op{Kind: KRegisterCandidate, Actor: g.W.Owners[0], Node: g.W.Nodes[g.W.N0].Key.PubHex()}
+		}),
+		OpStep(func(g *Gen) *Op {
+			return &Op{Kind: KRegisterCandidate, Actor: g.W.Owners[1], Node: g.W.Nodes[g.W.N0+1].Key.PubHex()}
+		}),
 		walk(KApproveCandidate, func(g *Gen) string { return g.W.Nodes[g.W.N0].Key.PubHex() },
 			func(g *Gen, fresh []*Actor) []*Op {
 				return cross([2]string{KApproveCandidate, g.W.Nodes[g.W.N0+1].Key.PubHex()}, [2]string{KWhiteNode, g.W.Nodes[g.W.N0].Key.PubHex()})(g, fresh)
@@ -397,6 +470,16 @@ func RegistryScripts() []Script {
 		RoundStep(KApproveUpdateSC, idStr(0), "pending-update-of-removed-chain"),
 		RoundStep(KApproveRegisterSC, idStr(0), "registration-of-free-id"),
 	}, Tail: 10}
+	// same as `stale`, but the SAME owner applies again: a pending registration coexists with a chain registered to its applicant
+	staleSame := Script{Name: "registry-stale-update-then-registration-by-the-same-owner", Steps: []Step{
+		regChain(1, ownerN(2)), RoundStep(KApproveRegisterSC, idStr(1), "first-round"),
+		updChain(1, ownerN(2)),
+		quitChain(1, ownerN(2)), RoundStep(KApproveQuitSC, idStr(1), "quit-round"),
+		regChain(1, ownerN(2)),
+		RoundStep(KApproveUpdateSC, idStr(1), "pending-update-of-removed-chain"),
+		RoundStep(KApproveRegisterSC, idStr(1), "registration-of-id-registered-to-the-applicant"),
+		RoundStep(KApproveRegisterSC, idStr(1), "registration-of-id-registered-to-the-applicant/again"),
+	}, Tail: 10}
 	// a second requester files a request for an id whose request is pending and partially approved
 	partial := func(method string, id uint64, tag string) Step {
 		return func(g *Gen) []*Op {
@@ -431,7 +514,7 @@ func RegistryScripts() []Script {
 		}),
 		RoundStep(KApproveUpdateSC, idStr(3), "rest-of-round"),
 	}, Tail: 5}
-	return []Script{stale, swap, ownerSwap, {Name: "registry-non-owner-paths", Steps: []Step{
+	return []Script{stale, staleSame, swap, ownerSwap, {Name: "registry-non-owner-paths", Steps: []Step{
 		regChain(maxChainID, ownerN(0)),
 		regChain(maxChainID, ownerN(1)), // second request for the same id while pending
 		RoundStep(KApproveRegisterSC, idStr(maxChainID), "first-round"),
